@@ -36,6 +36,10 @@ RULE = ("exhaustive (seed independent): a 5-column frame mixing every field type
 ASSUMPTIONS = ["numpy boolean / fancy indexing and np.argsort(kind='stable') behave as modelled (filterBy / gather / stable merge sort)",
                "h5py stores and returns arrays and attributes faithfully (C01); WriteableFieldArray.clear+write = replace",
                "fixed strings and timestamps are sent to the model as order-isomorphic integers",
+               "an indexed-string sort key is sorted as np.asarray(list_of_str) (a '<U' array) with np.argsort(kind='stable'): numpy "
+               "compares '<U' entries code point by code point and the stable argsort is stable; for valid UTF-8 the code-point "
+               "order is the bytewise order of the encodings (the order the theorems speak of); a '<U' array drops trailing NUL "
+               "characters ('a\\x00' ties with 'a': open finding NC09g, modelled as found) — generated keys do not end in NUL",
                "hand-written Lean model validated by this differential run, not verified against the Python text"]
 TRUSTED = ["Lean 4.33 kernel", "axioms: propext, Classical.choice, Quot.sound only (audited per theorem)",
            "checks/harness/c09.py generators, canonicalisation and oracle",
@@ -43,10 +47,15 @@ TRUSTED = ["Lean 4.33 kernel", "axioms: propext, Classical.choice, Quot.sound on
 LEVEL_TEXT = ("proof: kernel-checked Lean theorems about the executable model (both indexed-string kernels equal the row-level "
               "spec with memory safety; every write mode stores the same result; frame operations act column-wise with one "
               "row selection, leave every other frame untouched and keep metadata; dataset_sort_index equals the stable "
-              "lexicographic sort permutation), tied to the code by differential execution")
+              "lexicographic sort permutation; sort_values with ANY mix of numeric, fixed-string and indexed-string keys is "
+              "apply_index with THE stable ascending lexicographic permutation of the key tuples — rank encoding of a string "
+              "column is an order embedding — and rows with equal key tuples keep their order), tied to the code by "
+              "differential execution")
 LEVEL_NOTE = ("the model is validated against ExeTera by differential execution, not derived from the Python source; numpy "
               "indexing/argsort and h5py are modelled, not verified; theorems are about the code with fixes D8, NC09b, "
-              "NC09c, NC09d applied")
+              "NC09c, NC09d applied; string keys are ordered as numpy's '<U' arrays order them (code point order = bytewise order "
+              "of the UTF-8 encodings, trailing NUL characters ignored: the bytewise statement is frame_sort_is_index_all_keys_partial "
+              "with the hypothesis that no key ends in NUL, NC09g open)")
 TECHNIQUE = "Lean 4 theorems over an executable model + differential correspondence with the real functions"
 EXPLANATION = ""
 
@@ -208,6 +217,30 @@ def gen_cases(tier, rng):
                         continue
                     cases.append(frame_case(std_frame(n, cnt % 4),
                                             [idx_step(idx, ddf=ddf, idtype=["int64", "int32", "uint32"][cnt % 3])], n=cnt))
+    # ---- frames filtered / re-indexed by one of THEIR OWN columns (`df.apply_filter(df['k'])`): the argument is a live HDF5 field
+    #      of the frame that is being rewritten, so it must be read once, before any column (itself included) changes; the
+    #      column sits first, in the middle and last in creation order
+    for n in range(1, min(nf, 4) + 1):
+        for bits in itertools.product([0, 1], repeat=n):
+            for pos in (0, 2, 5):
+                for ddf in (None, "d0"):
+                    cnt += 1
+                    cols = std_frame(n, cnt % 4)
+                    fmt = ["int8", "int64", "uint8"][cnt % 3]
+                    cols.insert(pos, col_numeric("k", [b * (1 + cnt % 2) for b in bits], fmt))
+                    st = flt_step([b * (1 + cnt % 2) for b in bits], "num", ddf=ddf, fdtype=fmt)
+                    st["own"] = "k"
+                    cases.append(frame_case(cols, [st], n=cnt, why="own column as filter"))
+    for n in range(1, ni + 1):
+        for idx in itertools.product(range(n), repeat=n):
+            for pos in (0, 2, 5):
+                for ddf in (None, "d0"):
+                    cnt += 1
+                    cols = std_frame(n, cnt % 4)
+                    cols.insert(pos, col_numeric("k", list(idx), "int64"))
+                    st = idx_step(idx, ddf=ddf, idtype="int64")
+                    st["own"] = "k"
+                    cases.append(frame_case(cols, [st], n=cnt, why="own column as index"))
     # ---- fields: every filter / a family of index arrays x backing x write mode (fresh, in place, into a target that is
     #      unwritten / written-empty / of the result's length / longer) x entry point, for every field type.  The source
     #      is read back after every call ("source untouched"), the target's previous content must be replaced.
@@ -521,7 +554,11 @@ def empty_like_col(col):
 
 
 def to_model(case):
-    return {k: v for k, v in case.items() if not k.startswith("_")}
+    m = {k: v for k, v in case.items() if not k.startswith("_")}
+    if "steps" in m:
+        # `own`: the filter / index argument is the frame's own column of that name — for the model it is the list it holds
+        m["steps"] = [{k: v for k, v in st.items() if k != "own"} for st in m["steps"]]
+    return m
 
 
 # ------------------------------------------------------------------------------------------------------------------
@@ -702,9 +739,11 @@ def impl_frame(case):
                 digest = hashlib.sha1((bioa if ds is dsa else biob).getvalue()).hexdigest()
             try:
                 if st["what"] == "filter":
-                    df.apply_filter(mk_array(e, st["flt"], st.get("fdtype", "bool"), st.get("as_field")), ddf)
+                    arg = df[st["own"]] if st.get("own") else mk_array(e, st["flt"], st.get("fdtype", "bool"), st.get("as_field"))
+                    df.apply_filter(arg, ddf)
                 elif st["what"] == "index":
-                    df.apply_index(mk_array(e, st["idx"], st.get("idtype", "int64"), st.get("as_field")), ddf)
+                    arg = df[st["own"]] if st.get("own") else mk_array(e, st["idx"], st.get("idtype", "int64"), st.get("as_field"))
+                    df.apply_index(arg, ddf)
                 else:
                     by = st["by"][0] if st.get("by_str") and len(st["by"]) == 1 else st["by"]
                     if case.get("entry") == "sort_on" and isinstance(by, list) and by and all(b in df for b in by) \
@@ -1067,7 +1106,20 @@ def check_spec(case, io, mode):
 
 
 def match_finding(case, io, mode):
-    return None     # no open finding for C09: D8, NC09b, NC09c, NC09d are repaired by fix patches
+    # NC09g (open): sort by an indexed-string key that holds an entry ending in a NUL character (numpy '<U' arrays drop it)
+    if case.get("op") == "c09_frame":
+        for st in case.get("steps", []):
+            if st.get("what") != "sort":
+                continue
+            for fr in case.get("store", []):
+                if fr["name"] != st.get("src"):
+                    continue
+                for col in fr["cols"]:
+                    if col["name"] in (st.get("by") or []) and col.get("ftype") == "indexedstring":
+                        ix, vs = col.get("indices", []), col.get("values", [])
+                        if any(b > a and vs[b - 1] == 0 for a, b in zip(ix, ix[1:])):
+                            return "NC09g"
+    return None     # D8, NC09b, NC09c, NC09d, NC09e are repaired by fix patches
 
 
 # ------------------------------------------------------------------------------------------------------------------
@@ -1180,3 +1232,8 @@ def select_for_mode(case, mode, tier):
     if op == "c09_field":
         return "indices" in case["src"] and n % 2 == 0
     return False
+
+
+# the TRANSLATED two-pass kernels (Gen/Kernels.lean) are executed against the real kernels on cases derived from the ones above
+from checks.harness import genkernels  # noqa: E402
+genkernels.install(globals(), "C09")
